@@ -55,6 +55,16 @@ DIFFERENT_DOCS = {
 }
 
 
+# one caller issues SEVERAL calls one after the other while another caller's call overlaps them: the sequential orders that explain
+# the execution must keep each caller's program order (a delete issued after one's own store has returned cannot be ordered
+# before it)
+_SF1, _SF2 = {"op": "smeta", "pid": "p", "fmt": F, "d": 1}, {"op": "smeta", "pid": "p", "fmt": F, "d": 2}
+_SD1 = {"op": "smeta", "pid": "p", "fmt": None, "d": 1}
+_DF, _DALL, _DOBJ = {"op": "dmeta", "pid": "p", "fmt": F}, {"op": "dmeta", "pid": "p", "fmt": None}, {"op": "delete", "pid": "p"}
+SEQUENCED = [(_DALL, [_SF1, _DALL]), (_DALL, [_SD1, _DALL]), (_DF, [_SF1, _DF]), (_DALL, [_SF1, _DF]), (_DF, [_SF1, _DALL]),
+             (_DOBJ, [_SF1, _DALL]), (_DALL, [_SF1, _DOBJ]), (_SF1, [_DF, _SF2]), (_SF1, [_DALL, _SF2]), (_DF, [_DF, _SF1])]
+
+
 def examples(tier):
     return 1600 if tier == "quick" else 20000
 
@@ -99,6 +109,12 @@ def enumerate_cases(tier):
         for inst in (None, [0, 1]):
             yield dict(BASE, start_name="different-documents:" + name, start=start, calls=[a, b], mode="enum", max_preempt=1,
                        instances=inst, family="different-documents")
+    for sname in ("bound,docs",) if tier == "quick" else ("bound,docs", "unbound,docs"):
+        for a, bs in SEQUENCED:
+            for first in (0, 1):
+                for lo in ("sorted", "reversed"):
+                    yield dict(BASE, start_name=sname, start=STARTS[sname], calls=[a, {"op": "seq", "ops": bs}], mode="cd",
+                               max_preempt=2 if tier == "quick" else 3, firsts=[first], list_order=lo, family="sequenced")
     if tier == "thorough":
         # conflict-directed enumeration: every schedule with <=3 preemptions up to commutation of independent steps
         for sname in STARTS:
@@ -180,6 +196,8 @@ def run_case(case, ctx):
     ctx.evaluations -= 1
 
     def doc(c):
+        if c["op"] == "seq":
+            return "all"
         return "all" if c["op"] in ("delete",) or (c["op"] == "dmeta" and c["fmt"] is None) else c.get("fmt") or "default"
     confl = any(doc(a) == doc(b) or "all" in (doc(a), doc(b)) for a, b in itertools.combinations(calls, 2))
     if case["mode"] == "enum":
@@ -204,12 +222,17 @@ def run_case(case, ctx):
         n = 0
         stats = {}
         for order, pre, ex, stats in conc.conflict_directed_schedules(world, calls, max_preempt=case.get("max_preempt", 3),
-                                                                      firsts=tuple(case.get("firsts", (0, 1)))):
+                                                                      firsts=tuple(case.get("firsts", (0, 1))),
+                                                                      **({"list_order": case["list_order"]} if case.get("list_order") else {})):
             ctx.count()
             n += 1
             judge(ctx, world, case, calls, order, pre, ex)
             if pre and confl:
                 ctx.nontrivial([case["start_name"], "cd", [conc.op_pattern(c, world) + str(c.get("d")) for c in calls], order, pre, ex.outcomes])
+        if case.get("family") == "sequenced":
+            ctx.classify("sequenced-programs")
+            ctx.classify("sequenced-schedules", n)
+            return
         ctx.classify("conflict-directed-programs")
         ctx.classify("conflict-directed-schedules", n)
         ctx.classify("conflict-directed: positions pruned as independent", stats.get("pruned", 0))
